@@ -30,7 +30,10 @@ TRUSTED_EXTRA = ["Biopython 1.88 (Bio.Seq reverse_complement/translate) as a sec
 MANIFEST = {
     "text": "Lean 4 theorems for all ragged inputs: reverse complement = per-row reverse of the per-symbol complement (decoded text "
             "level, any encoding whose tabulated table passes the whole-table obligation), involutive, length preserving; stranded "
-            "extraction = forward slice for '+', its reverse complement for '-' (both entry points); translation of every row with "
+            "extraction = forward slice for '+', its reverse complement for '-' (both entry points, modelled along the code path: "
+            "ragged view by interval bounds / one Python slice per interval, where_rows = np.repeat row mask + flat where + re-wrap, "
+            "proved equal to row selection); transcript sequences (genes.py: exon slices joined per run of transcript ids, "
+            "reverse-complemented as a whole for '-'); translation of every row with "
             "3 | length = standard genetic code per codon (written by amino-acid families). The complement tables of ASCII/ACGT/"
             "ACGTN/ACTG/ACTGN and the 64-codon table are re-extracted behaviourally from /repo on every run into Gen/C14.lean and "
             "re-checked by the kernel (decide +kernel). Correspondence: implementation vs Lean model vs Lean spec vs Python oracle "
